@@ -27,7 +27,6 @@ package scipipe
 
 //@ func prependParentDirPath(path) (res)
 //@   props C13
-//@   requires nonempty: len(path) > 0
 //@   ensures abs: hasPrefix(path, "/") ==> res == path
 //@   ensures rel: !hasPrefix(path, "/") ==> res == "../" + path
 
@@ -54,7 +53,6 @@ package scipipe
 
 //@ func (*FileIP).TempPath(ip) (res)
 //@   props C01 C13
-//@   requires nonempty: len(ip.path) > 0
 //@   ensures def: res == tempPathOf(ip.path)
 //@   ensures confined[C01]: !hasPrefix(res, "/") && !contains(res, "../")
 //@   ensures identity[C13]: !hasPrefix(ip.path, "/") && !contains(ip.path, "../") ==> res == ip.path
@@ -296,12 +294,10 @@ package scipipe
 
 //@ func (*FileIP).TempDir(ip) (res)
 //@   props C13
-//@   requires nonempty: len(ip.path) > 0
 //@   ensures def: res == dirOf(tempPathOf(ip.path))
 
 //@ func (*FileIP).createDirs(ip, baseDir)
 //@   props C13 C17
-//@   requires nonempty: len(ip.path) > 0
 //@   modifies effMkdir, fsEpoch
 //@   ensures grows: forall p string :: old(effMkdir)[p] ==> effMkdir[p]
 //@   ensures only-dirs: effCreated == old(effCreated)
@@ -310,7 +306,6 @@ package scipipe
 
 //@ func (*FileIP).WriteAuditLogToFile(ip)
 //@   props C10 C01
-//@   requires nonempty: len(ip.path) > 0
 //@   modifies ip.auditInfo, locked, effCreated, effMkdir, fsEpoch
 //@   ensures written: effCreated == setAdd(old(effCreated), ip.path + ".audit.json")
 //@   ensures record-kept: old(ip.auditInfo) != nil ==> ip.auditInfo == old(ip.auditInfo)
@@ -474,7 +469,6 @@ package scipipe
 
 //@ func (*FileIP).Write(ip, dat)
 //@   props C01
-//@   requires nonempty: len(ip.path) > 0
 //@   modifies effCreated, effMkdir, fsEpoch
 //@   ensures creates-temp-path: effCreated == setAdd(old(effCreated), tempPathOf(ip.path))
 //@   ensures not-final: forall p string :: effCreated[p] && !old(effCreated)[p] ==> p != ip.path
@@ -634,12 +628,9 @@ package scipipe
 //@ func applyPathModifiers(path, modifiers) (res)
 //@   props C15
 //@   deterministic structural
-//@   requires documented: forall j int :: 0 <= j && j < len(modifiers) ==> docMod(modifiers[j])
-//@   requires no-newline: !contains(path, "\n")
 //@   assumes functional: res == applyMods(path, modifiers)
 //@   ensures no-modifiers: len(modifiers) == 0 ==> res == path
-//@   ensures no-newline: !contains(res, "\n")
 //@   loop 0 invariant range: 0 <= $i && $i <= len(modifiers)
 //@   loop 0 invariant start: $i == 0 ==> replacement == path
-//@   loop 0 invariant no-newline: !contains(replacement, "\n")
-//@   loop 0 step left-to-right: $i == prev($i) + 1 && replacement == modstep(prev(replacement), modifiers[prev($i)])
+//@   loop 0 step one-at-a-time: $i == prev($i) + 1
+//@   loop 0 step left-to-right: docMod(modifiers[prev($i)]) && !contains(prev(replacement), "\n") ==> replacement == modstep(prev(replacement), modifiers[prev($i)])
